@@ -41,6 +41,31 @@ def _stable_params(fn):
     return ps - bad
 
 
+def _stable_loop_vars(fn):
+    """names bound exactly once, as (part of) the target of a `for` statement, and never mutated: inside that loop's body such a
+    name stands for one element, just like a parameter stands for one argument"""
+    counts = {}
+    loop_bound = set()
+    for n in ast.walk(fn):
+        if isinstance(n, ast.Name) and isinstance(n.ctx, (ast.Store, ast.Del)):
+            counts[n.id] = counts.get(n.id, 0) + 1
+        if isinstance(n, ast.For):
+            for x in ast.walk(n.target):
+                if isinstance(x, ast.Name):
+                    loop_bound.add(x.id)
+    cand = {v for v in loop_bound if counts.get(v) == 1}
+    bad = set()
+    for n in ast.walk(fn):
+        if isinstance(n, (ast.Subscript, ast.Attribute)) and isinstance(n.ctx, (ast.Store, ast.Del)) and isinstance(n.value, ast.Name) and n.value.id in cand:
+            bad.add(n.value.id)
+        elif isinstance(n, ast.Call) and isinstance(n.func, ast.Attribute) and isinstance(n.func.value, ast.Name) and \
+                n.func.value.id in cand and n.func.attr not in _READ_METHODS:
+            bad.add(n.func.value.id)
+        elif isinstance(n, (ast.Global, ast.Nonlocal)):
+            bad |= set(n.names)
+    return cand - bad - _params(fn)
+
+
 def _const(x):
     return isinstance(x, ast.Constant) and isinstance(x.value, (str, int, type(None), bool))
 
@@ -123,7 +148,7 @@ def forward_param_reads(tree):
     for fn in ast.walk(tree):
         if not isinstance(fn, (ast.FunctionDef, ast.AsyncFunctionDef)):
             continue
-        stable = _stable_params(fn)
+        stable = _stable_params(fn) | _stable_loop_vars(fn)
         if not stable:
             continue
         # normalise p.get(k) -> p.get(k, None)
